@@ -31,9 +31,7 @@ RULE = ("case = one point of the union of three complete sub-lattices (method / 
         "with autograd through a dense column-by-column torch.linalg.solve reference built from the same leaves; "
         "exceptions are violations; points whose forward or backward solver raised a ConvergenceWarning are not "
         "judged numerically; distinct = distinct observation hashes; trivial = forward warned")
-RULE_ADDED = ('Added later: placements add_dense / matmul_dense / sub_two, operator tensor reassigned between forwa'
-              'rd and backward (mut), dependent parameters, call-order plane in fresh interpreters. Round 4: placem'
-              'ents view_two / detach_two (distinct tensors sharing storage), scale_in_sum.')
+RULE_ADDED = 'Added later: placements add_dense / matmul_dense / sub_two, operator tensor reassigned between forward and backward (mut), dependent parameters, call-order plane in fresh interpreters. Round 4: placements view_two / detach_two (distinct tensors sharing storage), scale_in_sum. Rounds 5-6: placement const (operator without declared parameters); plane ezero (every shift exactly zero).'
 ASSUMPTIONS = [
     "A = L A0 L^H (value of the leaf), M = Pm Pm^H + I = L L^H, A0 non-normal with singular values in [0.7, 3.3]; "
     "Hermitian placements use P P^H + I; kappa of every A - e_c M is measured and enters the tolerance",
